@@ -15,6 +15,10 @@ T = {
  'C18': dict(design='4/C18', technique='bounded-exhaustive decimal grid + property-based random floats against a strict text parser with exact decimal arithmetic',
              text='Every p<=3 (thorough p<=4) digit mantissa x decade x float neighbours x sign x prefix table is rendered and parsed back; random binary64 values, complex values in all quadrants (Cartesian/polar) and every Display.print_* helper likewise. Accuracy is judged in exact Decimal arithmetic. The enumerated grid is complete; the rest is exploration.',
              note='Trusts the strict parser in vlib/parse_display.py and Python Decimal; ties within 1e-9 of half a unit are accepted either way; infinity is accepted from 10^(max_exp+1) of the table in force; open finding F20 (precision-dependent suppression of complex parts) is reported as KNOWN-FINDING.'),
+
+ 'C17': dict(design='4/C17', technique='grammar-based property testing of the loaders: independent kind->value table, round-trip and deep-snapshot (no-mutation) oracles',
+             text='Generated network/circuit descriptions over every kind of both loader tables, the three complex notations, and recursively nested JSON/YAML documents; loaded elements are compared with an independent table, every argument is deep-compared before/after each call, loads are repeated. Exploration over generated inputs.',
+             note='Trusts json/yaml of the standard environment and my reading of the three complex notations; user dictionaries that collide with the reserved encodings are excluded.'),
 }
 
 DEFAULT_LEVEL = 'exploration'
